@@ -210,9 +210,9 @@ func c19Units(thorough bool) []*explore.Unit {
 						maxAt = 3
 					}
 					for at := -1; at <= maxAt; at++ {
-						b := 1
-						if thorough {
-							b = 2
+						b := 2
+						if thorough && len(keys) == 1 {
+							b = 3
 						}
 						add(c19Params{layout: layout, keys: keys, warm: warm, closeAt: at, twice: at%2 == 0, env: env}, b)
 					}
